@@ -168,6 +168,23 @@ def judgeRestore (cfg : Cfg) (st : St) (rj : Bool) (impl : String) : Option (Str
       else if rj then some ("leave-rejoin-set", s!"restart after a leave (rejoin-after-leave on) would re-join [{a}], the set known at the leave was [{showAlive st.spec.alive}]")
       else some ("leave-not-remembered", s!"restart after a leave (rejoin-after-leave off) would re-join [{a}]")
 
+/-- judge the bytes the implementation left in the snapshot file at shutdown: read with the
+replay parser, they must give the state the events produced (evaluated on the
+implementation's bytes, so a writer defect yields a concrete failing history even
+when the model comparison already failed on the same line) -/
+def judgeFile (cfg : Cfg) (st : St) (implF : List Char) : Option (String × String) :=
+  if st.badName || st.torn then none else
+  let r := replay st.rjWriter implF
+  if !st.left then
+    if !cfg.judgeNoLeave then none else
+    let m := showMem r.alive r.clock r.eventClock r.queryClock
+    if m == showSpec st.spec then none
+    else some ("snapshot-file-stale", s!"the snapshot file written at shutdown replays to [{m}], the node knew [{showSpec st.spec}]")
+  else
+    if !cfg.judgeLeave then none else
+    if showAlive r.alive == showAlive st.spec.alive then none
+    else some ("leave-file-rejoin-set", s!"after a leave the snapshot file written at shutdown replays to the rejoin set [{showAlive r.alive}], expected [{showAlive st.spec.alive}]")
+
 def fileMatches (s : Snap) (model impl : List Char) : Bool :=
   let lines := s.block.map fun p => printLine (.alive p.1 p.2)
   let b := lines.flatten.length
@@ -271,6 +288,9 @@ def step (cfg : Cfg) (st : St) (op : List String) (impl : String) : LineOut St :
       | [istate, ifile] =>
         match charsOfHex? ifile with
         | some implF =>
+          let mon := match mon with
+            | some m => some m
+            | none => judgeFile cfg st2 implF
           if istate == mstate && fileMatches r.1 mfile implF then
             { state := { st2 with fs := { fs with main := some implF } }, model := some impl, monitor := mon }
           else { state := st2, model := some (mstate ++ " file=" ++ hexOfChars mfile), monitor := mon }
